@@ -89,6 +89,7 @@ def run_obligation(res, prop, st_name, N, findings, scenario="single", cfg=None)
     skip = scenario_fixed_flags(scenario)
     needs_inverse = scenario == "inverse3"
     shapemap = st.get("mode") == "shapemap"
+    targets = cfg.get("targets")            # class local names: target_classes selection instead of all_classes_mode
 
     def fn(ex):
         flags = {}
@@ -112,10 +113,12 @@ def run_obligation(res, prop, st_name, N, findings, scenario="single", cfg=None)
         for r in runs:
             key = (r["graph"], r["flags"]["inverse_paths"])
             if key not in syms:
-                syms[key] = T.build_symbolic(ex, st, N, r["flags"]["inverse_paths"], reverse=(r["graph"] == "R"), permuted=(r["graph"] == "P"))
+                syms[key] = T.build_symbolic(ex, st, N, r["flags"]["inverse_paths"], reverse=(r["graph"] == "R"), permuted=(r["graph"] == "P"), targets=targets)
             r["sym"] = syms[key]
             try:
                 extra = dict(r["extra"])
+                if targets is not None:
+                    extra["target_classes"] = [R.EX + c for c in targets]
                 if shapemap:
                     extra["shape_map_raw"] = R.shapemap_text(T.permuted_rows(st["rows"]) if r["graph"] == "P" else st["rows"], None, representative=True)
                 kept = [] if r.get("keep") else None
@@ -201,6 +204,8 @@ def run_obligation(res, prop, st_name, N, findings, scenario="single", cfg=None)
             thr = thr_of.get(id(r["t"]), r["t"])
             doc = R.to_ntriples(_graph_variant(st, vals, triples, r["graph"], shapemap))
             extra = dict(r["extra"])
+            if targets is not None:
+                extra["target_classes"] = [R.EX + c for c in targets]
             if shapemap:
                 extra["shape_map_raw"] = R.shapemap_text(T.permuted_rows(st["rows"]) if r["graph"] == "P" else st["rows"], vals)
             try:
@@ -223,6 +228,8 @@ def run_obligation(res, prop, st_name, N, findings, scenario="single", cfg=None)
             elif r["want_shacl"] and not _same_graph(r["shacl"], real["shacl"]):
                 mismatch = "run %s: SHACL graphs differ\n%s\n---\n%s" % (r["name"], r["shacl"], real["shacl"])
         inst_over = R.shapemap_instances(st["rows"], vals) if shapemap else None
+        if targets is not None:
+            inst_over = R.refprof(triples, targets={R.EX + c for c in targets})[0]
         problems = [] if any(x["tag"] == "EXC" for x in reals) else concrete_problems(prop, scenario, triples, reals, ctx["flags"], st["tags"], active, cfg, inst_over)
         if mismatch is not None:
             if problems and viol is None:
@@ -285,6 +292,8 @@ def replay(args):
     for r in runs:
         doc = R.to_ntriples(_graph_variant(st, args["values"], triples, r["graph"], shapemap))
         extra = dict(r["extra"])
+        if cfg.get("targets") is not None:
+            extra["target_classes"] = [R.EX + c for c in cfg["targets"]]
         if shapemap:
             extra["shape_map_raw"] = R.shapemap_text(T.permuted_rows(st["rows"]) if r["graph"] == "P" else st["rows"], args["values"])
         try:
@@ -295,8 +304,10 @@ def replay(args):
             print("extraction raised %s: %s [run %s]\ndocument:\n%s" % (type(e).__name__, e, r["name"], doc))
             return True
         reals.append(dict(tag="OK", text=rt, shacl=rs, thr=r["t"], run=r, shaper=kept[0] if kept else None))
-    problems = concrete_problems(args["prop"], args["scenario"], triples, reals, args["flags"], st["tags"], set(args.get("active", [])), cfg,
-                                 R.shapemap_instances(st["rows"], args["values"]) if shapemap else None)
+    inst_over = R.shapemap_instances(st["rows"], args["values"]) if shapemap else None
+    if cfg.get("targets") is not None:
+        inst_over = R.refprof(triples, targets={R.EX + c for c in cfg["targets"]})[0]
+    problems = concrete_problems(args["prop"], args["scenario"], triples, reals, args["flags"], st["tags"], set(args.get("active", [])), cfg, inst_over)
     if problems:
         print("\n".join(problems[:5]))
         print("thresholds=%r flags=%r\ndocument:\n%s" % (thrs, args["flags"], R.to_ntriples(triples)))
